@@ -66,8 +66,19 @@ type PolicySpec struct {
 	Apps             []AppSpec        `json:"apps,omitempty"`
 	// RootSigners are the key indexes that sign the root envelope.
 	RootSigners []int `json:"rootSigners"`
+	// Multi-repository ("network") declarations of the root.
+	Controller      bool      `json:"controller,omitempty"`      // this repository is a controller
+	NetworkRepos    []RepoRef `json:"networkRepos,omitempty"`    // repositories this controller governs
+	ControllerRepos []RepoRef `json:"controllerRepos,omitempty"` // controllers this repository follows
 	// Files: "targets" and delegated rule files by name. nil Targets = no rule file yet.
 	Files map[string]*RuleFileSpec `json:"files,omitempty"`
+}
+
+// RepoRef names another repository in a root's network declarations.
+type RepoRef struct {
+	Name     string `json:"name"`
+	Location string `json:"location"`
+	RootKeys []int  `json:"rootKeys"`
 }
 
 func (p *PolicySpec) Clone() *PolicySpec {
@@ -77,6 +88,8 @@ func (p *PolicySpec) Clone() *PolicySpec {
 	n.RootSigners = append([]int(nil), p.RootSigners...)
 	n.GlobalRules = append([]GlobalRuleSpec(nil), p.GlobalRules...)
 	n.Apps = append([]AppSpec(nil), p.Apps...)
+	n.NetworkRepos = append([]RepoRef(nil), p.NetworkRepos...)
+	n.ControllerRepos = append([]RepoRef(nil), p.ControllerRepos...)
 	n.Files = map[string]*RuleFileSpec{}
 	for k, f := range p.Files {
 		nf := *f
@@ -171,6 +184,28 @@ func (p *PolicySpec) BuildRoot() (*tufv02.RootMetadata, error) {
 			root.EnableGitHubAppApprovals(a.Name)
 		} else {
 			root.DisableGitHubAppApprovals(a.Name)
+		}
+	}
+	if p.Controller {
+		if err := root.EnableController(); err != nil {
+			return nil, err
+		}
+	}
+	refPrincipals := func(r RepoRef) []tuf.Principal {
+		out := []tuf.Principal{}
+		for _, k := range r.RootKeys {
+			out = append(out, GetKey(k).Principal())
+		}
+		return out
+	}
+	for _, r := range p.NetworkRepos {
+		if err := root.AddNetworkRepository(r.Name, r.Location, refPrincipals(r)); err != nil {
+			return nil, err
+		}
+	}
+	for _, r := range p.ControllerRepos {
+		if err := root.AddControllerRepository(r.Name, r.Location, refPrincipals(r)); err != nil {
+			return nil, err
 		}
 	}
 	root.Version = uint64(p.RootVersion)
